@@ -1327,3 +1327,50 @@ def do_lookup_search(req):
 
 
 HANDLERS.update({'lookup_case': do_lookup_case, 'lookup_search': do_lookup_search})
+
+
+# ------------------------------------------------------------------------------ sampled conformance of assumed contracts
+def do_conf_bytes(req):
+    """byte-string algebra used by C08: strip0 distributes over +, identity on NUL-free strings, erases zero padding;
+    decode(encode(text)) == text"""
+    import random
+    rnd = random.Random(req.get('seed', 0))
+    strip0 = lambda b: b.replace(b'\x00', b'')
+    mism = []
+    n = req.get('n', 2000)
+    for _ in range(n):
+        a = bytes(rnd.choice([0, 0, 65, 66, 0xc3, 0xa9, 47]) for _ in range(rnd.randint(0, 40)))
+        b = bytes(rnd.choice([0, 97, 98]) for _ in range(rnd.randint(0, 40)))
+        if strip0(a + b) != strip0(a) + strip0(b):
+            mism.append(('distribute', a.hex(), b.hex()))
+        if 0 not in a and strip0(a) != a:
+            mism.append(('identity', a.hex()))
+        if strip0(bytes(len(b))) != b'':
+            mism.append(('zeros', len(b)))
+        t = ''.join(rnd.choice('ab/é漢') for _ in range(rnd.randint(0, 20)))
+        if t.encode().decode() != t:
+            mism.append(('roundtrip', t))
+    return {'samples': n, 'mismatches': mism[:5]}
+
+
+def do_conf_bisect(req):
+    import bisect
+    import random
+    rnd = random.Random(req.get('seed', 0))
+    mism = []
+    n = req.get('n', 2000)
+    for _ in range(n):
+        lst = sorted(rnd.randint(0, 30) for _ in range(rnd.randint(0, 8)))
+        x = rnd.randint(-1, 31)
+        i = bisect.bisect(lst, x)
+        if not (0 <= i <= len(lst) and all(v <= x for v in lst[:i]) and all(v > x for v in lst[i:])):
+            mism.append(('bisect', lst, x, i))
+        l2 = list(lst)
+        p = rnd.randint(0, len(lst))
+        l2.insert(p, 99)
+        if not (len(l2) == len(lst) + 1 and l2[p] == 99 and l2[:p] == lst[:p] and l2[p + 1:] == lst[p:]):
+            mism.append(('insert', lst, p))
+    return {'samples': n, 'mismatches': mism[:5]}
+
+
+HANDLERS.update({'conf_bytes': do_conf_bytes, 'conf_bisect': do_conf_bisect})
